@@ -1,6 +1,6 @@
 (* PipelineProofs.v — theorems about kiki::generate as a whole. *)
 From Coq Require Import List Arith Lia Bool Permutation.
-From Kiki Require Import Base.Ord Base.Chars Data Oset.Model Lex.Model LR.Driver LR.Grammar LR.Inv LR.Complete LR.Sound LR.ErrPos LR.Viable LR.Least LR.CanonLR1 LR.FirstExact
+From Kiki Require Import Base.Ord Base.Chars Data Oset.Model Lex.Model LR.Driver LR.Grammar LR.Inv LR.Complete LR.Sound LR.ErrPos LR.Viable LR.Least LR.CanonLR1 LR.CanonAgree LR.FirstExact
   LR.Validate LR.ValidateProofs Front.Parse Front.FrontProofs Ast.Validate Ast.WF Ast.ValidateProofs Ast.VWF Ast.Truthful
   Build.Machine Build.DetProofs Build.Table Build.TableProofs Build.FillProofs Build.TableSpec Build.GenCorrect Np Build.NoPanic
   Emit.Emit Emit.Hash Emit.HashProofs Emit.Parser Emit.NoPanic Pipeline.
@@ -119,6 +119,22 @@ Section Emitted.
   Proof.
     intros Hprod Hstart. destruct emitted_invariants as (ann & ft & A & B & C & D).
     apply (reject_exact kind pt ann (fseq ft) C A B D Hprod Hstart).
+  Qed.
+
+  (* C03 for every accepted grammar, unproductive nonterminals included: the rejection is at the
+     position at which the canonical LR(1) parser of the grammar stops (LR/CanonAgree.v) *)
+  Theorem emitted_parser_rejects_where_canonical_stops : exists ft,
+    forall fuel w tok,
+      Forall (fun p => kind p < pt_nterm pt) w ->
+      parse kind pt fuel w = OReject tok ->
+      exists consumed rest,
+        w = consumed ++ rest /\ tok = hd_error rest /\
+        (exists g, csteps kind pt ft ([], w) (g, rest)) /\
+        (forall g, csteps kind pt ft ([], w) (g, rest) -> ~ can_consume kind pt ft g rest).
+  Proof.
+    destruct (generate_tables_invariants ho digest src out text Hho Hgen) as (pt' & ann & ft & HP & A & B & _ & _ & E & Fc & _).
+    rewrite Hpt in HP. injection HP as <-. exists ft. intros fuel w tok Hw Hp.
+    exact (rejects_where_the_canonical_parser_stops kind pt ann ft A B E Fc fuel w tok Hw Hp).
   Qed.
 
   (* C04/C17: an accepted grammar is unambiguous *)
